@@ -4,10 +4,12 @@
 mod alloc;
 mod catalog;
 mod guard;
+mod idx;
 mod observe;
 mod ops;
 mod rng;
 mod runner;
+mod scen;
 mod sim;
 mod spec;
 mod sut;
@@ -37,6 +39,26 @@ fn arg(args: &[String], name: &str) -> Option<String> {
 fn die(msg: &str) -> ! {
     eprintln!("flatsim: harness error: {msg}");
     std::process::exit(2);
+}
+
+pub struct DynScen {
+    pub name: String,
+    pub batch: Box<dyn Fn(&runner::BatchCfg) -> runner::BatchOut>,
+    pub replay: Box<dyn Fn(&J) -> Result<scen::SOut, String>>,
+}
+
+fn dynscen<S: scen::Scenario + Clone + 'static>(s: S) -> DynScen {
+    let (a, b) = (s.clone(), s.clone());
+    DynScen { name: s.name(), batch: Box::new(move |bc| scen::run_scenario(&a, bc)), replay: Box::new(move |j| scen::replay_scenario(&b, j)) }
+}
+
+/// The property-specific engines and the scenarios each runs for a property.
+fn special(engine: &str, prop: u8) -> Vec<DynScen> {
+    match (engine, prop) {
+        ("idx", 5) => (0..4).map(|c| dynscen(idx::IdxScen { container: c, prop: 5 })).collect(),
+        ("idx", 19) => [1u8, 2, 4, 5].iter().map(|c| dynscen(idx::IdxScen { container: *c, prop: 19 })).collect(),
+        _ => Vec::new(),
+    }
 }
 
 fn main() {
@@ -93,7 +115,20 @@ fn main() {
             let j: J = serde_json::from_str(&text).unwrap_or_else(|e| die(&format!("parse {path}: {e}")));
             let engine = j.get("engine").and_then(J::as_str).unwrap_or("sim");
             if engine != "sim" {
-                die("replay: unknown engine");
+                let prop: u8 = j.get("property").and_then(J::as_str).and_then(|s| s.trim_start_matches('C').parse().ok()).unwrap_or_else(|| die("replay: property"));
+                let comp = j.get("composition").and_then(J::as_str).unwrap_or_else(|| die("replay: no composition"));
+                let scs = special(engine, prop);
+                let sc = scs.iter().find(|s| s.name == comp).unwrap_or_else(|| die("replay: unknown scenario"));
+                let out = (sc.replay)(&j).unwrap_or_else(|m| die(&m));
+                let res = match &out.fail {
+                    None => json!({"outcome": "clean"}),
+                    Some(f) => json!({"outcome": "violation", "oracle": f.0, "step": f.1, "detail": f.2}),
+                };
+                match arg(&args, "--out") {
+                    Some(p) => std::fs::write(&p, res.to_string()).unwrap_or_else(|e| die(&format!("write: {e}"))),
+                    None => eprintln!("{res}"),
+                }
+                return;
             }
             let comp = j.get("composition").and_then(J::as_str).unwrap_or_else(|| die("replay: no composition"));
             let e = table::entries().iter().find(|e| e.name == comp).unwrap_or_else(|| die("replay: unknown composition"));
@@ -109,6 +144,41 @@ fn main() {
                 None => eprintln!("{res}"),
             }
         }
-        _ => die("usage: flatsim list | batch --prop Cxx --out FILE [...] | replay --file F"),
+        "idx" | "huff" | "dict" | "allocs" | "twin" => {
+            let prop: u8 = arg(&args, "--prop").and_then(|s| s.trim_start_matches('C').parse().ok()).unwrap_or_else(|| die("--prop"));
+            let runs: u64 = arg(&args, "--runs").and_then(|s| s.parse().ok()).unwrap_or(1000);
+            let seed: u64 = arg(&args, "--seed").and_then(|s| s.parse().ok()).unwrap_or(runner::DEFAULT_SEED);
+            let threads: usize = arg(&args, "--threads").and_then(|s| s.parse().ok()).unwrap_or(16);
+            let thorough = arg(&args, "--tier").map(|t| t == "thorough").unwrap_or(false);
+            let profile = arg(&args, "--profile").unwrap_or_else(|| "unknown".into());
+            let max_secs: f64 = arg(&args, "--max-secs").and_then(|s| s.parse().ok()).unwrap_or(600.0);
+            let only = arg(&args, "--sut");
+            let out_path = arg(&args, "--out").unwrap_or_else(|| die("--out"));
+            let start = std::time::Instant::now();
+            let scs: Vec<DynScen> = special(cmd, prop).into_iter().filter(|s| only.as_ref().map(|o| *o == s.name).unwrap_or(true)).collect();
+            if scs.is_empty() {
+                die("no scenario for this engine/property");
+            }
+            let per = (runs / scs.len() as u64).max(1);
+            let mut batches = Vec::new();
+            for sc in &scs {
+                let left = max_secs - start.elapsed().as_secs_f64();
+                if left <= 0.0 {
+                    break;
+                }
+                let bc = runner::BatchCfg { prop, base_seed: seed, runs: per, threads, thorough, profile: profile.clone(), max_secs: left / 1.0 };
+                let out = (sc.batch)(&bc);
+                let stop = out.violation.is_some();
+                batches.push(out.to_json());
+                if stop {
+                    break;
+                }
+            }
+            let doc = json!({"engine": cmd, "prop": prop, "seed": seed, "profile": profile, "tier": if thorough {"thorough"} else {"quick"},
+                             "compositions_applicable": scs.iter().map(|e| e.name.clone()).collect::<Vec<_>>(),
+                             "batches": batches, "wall_s": start.elapsed().as_secs_f64()});
+            std::fs::write(&out_path, serde_json::to_string(&doc).unwrap()).unwrap_or_else(|e| die(&format!("write {out_path}: {e}")));
+        }
+        _ => die("usage: flatsim list | batch|idx|huff|dict|allocs|twin --prop Cxx --out FILE [...] | replay --file F"),
     }
 }
